@@ -19,7 +19,7 @@ mod wiretap;
 #[path = "c15_im.rs"]
 mod imtap;
 
-const RULE: &str = "a case is one op history on a fresh real session table (1-4 sessions added, local ids taken from get_next_sess_id, allocators positioned at 1/2/65534/65535/random/onto live ids; then a state-aware random mix of initiate, exchange drop, received messages that open responder exchanges near the allocator position, accept, new sends, retransmissions with identical arguments, matching/mismatching acks, session add/remove, virtual time); non-trivial = the history contains an allocator skip over a live id or a retransmission (rt 1); distinct = by op list";
+const RULE: &str = "a case is one op history on a fresh real session table (1-4 sessions added, local ids taken from get_next_sess_id, allocators positioned at 1/2/65534/65535/random/onto live ids; then a state-aware random mix of session-id allocator moves onto or just before live local session ids (across the wrap) with allocations whose result becomes a session's local id, initiate, exchange drop, received messages that open responder exchanges near the allocator position, accept, new sends, retransmissions with identical arguments, matching/mismatching acks, session add/remove, virtual time); non-trivial = the history contains an allocator skip over a live exchange or session id or a retransmission (rt 1); distinct = by op list";
 
 fn live_slots(g: &GSnap) -> Vec<(u32, usize, u32, String, bool)> {
     let mut v = Vec::new();
@@ -57,11 +57,33 @@ fn gen_case(r: &mut Rng, out: &mut Out, len: usize) {
                 g = parse_snap(&exec(&format!("lsid {} {}", id, sid)));
             }
         }
+        // ops queued by a previous op (a new session asks the allocator for its local id)
+        let mut queued: Vec<String> = Vec::new();
+        // session whose local id is to be set to the result of the next `sid`
+        let mut wants_sid: Option<u32> = None;
         for _ in 0..len {
             let sess: Vec<u32> = g.sessions.iter().map(|s| s.uid).collect();
             let live = live_slots(&g);
             let pick_sess = |r: &mut Rng| -> u32 { if sess.is_empty() { 0 } else { *r.pick(&sess) } };
-            let op: String = match r.below(100) {
+            let lsids: Vec<u32> = g.sessions.iter().map(|s| s.lsid).filter(|l| *l != 0).collect();
+            let op: String = if !queued.is_empty() { queued.remove(0) } else { match r.below(108) {
+                100..=103 => {
+                    // put the session-id allocator onto (or up to two before) a live local session id,
+                    // across the 16-bit wrap (0 is never an id): the spot where the allocator has to
+                    // skip, possibly several live ids in a row and in any table order
+                    if lsids.is_empty() { format!("setsid {}", *r.pick(&edge)) } else {
+                        let l = *r.pick(&lsids) as u64;
+                        let mut v = l;
+                        for _ in 0..r.below(3) { v = if v <= 1 { 65535 } else { v - 1 }; }
+                        format!("setsid {}", v)
+                    }
+                }
+                104..=107 => {
+                    // a (re-)established session takes its local id from the allocator
+                    let uid = pick_sess(r);
+                    wants_sid = Some(uid);
+                    "sid".into()
+                }
                 0..=21 => {
                     next_h += 1;
                     format!("init {} h{}", pick_sess(r), next_h)
@@ -129,13 +151,29 @@ fn gen_case(r: &mut Rng, out: &mut Out, len: usize) {
                 94 => format!("rm {}", pick_sess(r)),
                 95..=96 => "xid".into(),
                 _ => format!("t {}", *r.pick(&[1u64, 50, 330, 1000, 5000])),
-            };
+            } };
             let before = g.clone();
             let full = exec(&op);
             let res = result_of(&full).to_string();
             g = parse_snap(&full);
             let w: Vec<&str> = op.split_whitespace().collect();
             match w[0] {
+                "sid" => {
+                    if res.parse::<u32>().ok() != Some(before.next_sid) {
+                        nt = true;
+                        stats.push("alloc_skip_sess");
+                    }
+                    if let Some(uid) = wants_sid.take() {
+                        queued.push(format!("lsid {} {}", uid, res));
+                    }
+                }
+                "add" => {
+                    if let Some(id) = res.strip_prefix("id ") {
+                        // the new session gets its local id from the allocator, as a handshake does
+                        wants_sid = id.parse().ok();
+                        queued.push("sid".into());
+                    }
+                }
                 "init" => {
                     if let Some(rest) = res.strip_prefix("x ") {
                         let mut it = rest.split_whitespace();
@@ -226,7 +264,14 @@ fn gen_sys(id: u64, r: &mut Rng) -> (String, Vec<String>) {
         let sched = if r.chance(1, 2) { pat.to_string() } else { gen_sched(r) };
         // every fifth traffic op: the builder of one request is NOT idempotent
         let n = r.range(1, 3);
-        let flaky = if r.chance(1, 5) { format!(" flaky={}", r.below(n)) } else { String::new() };
+        // ... or (every twentieth) idempotent in the payload but not in the reliable flag of its meta-data
+        let flaky = if r.chance(1, 5) {
+            format!(" flaky={}", r.below(n))
+        } else if r.chance(1, 16) {
+            format!(" flakyrel={}", r.below(n))
+        } else {
+            String::new()
+        };
         if r.chance(2, 3) {
             ops.push(format!("rr n={} sched={}{}", n, sched, flaky));
         } else {
